@@ -14,6 +14,7 @@ model-bound family of c11.py and the add-on c11back.py do not reach.  Decided by
 """
 from __future__ import annotations
 
+import itertools
 import math
 
 import numpy as np
@@ -105,5 +106,25 @@ def run(ck: Check):
             ck.count(("event-no-crossing", label), True)
             cs.obs(tr, "end_time", abs(t_last - tmax))
             cs.obs(tr, "on_flow", max(abs(y_last[0] - math.cos(tmax)), abs(y_last[ip] + math.sin(tmax))))
+    # 3. fixed-step drivers on a NON-UNIFORM (strictly increasing) grid: the step is the spacing of each interval
+    g03 = numba.njit(numba.types.float64(numba.types.float64, numba.types.float64[:]), cache=False)(lambda t, y: y[0] - 0.3)
+    grid = np.concatenate([np.arange(0, 100) * 0.01, 1.0 + np.arange(0, 101) * 0.02])          # dt = 0.01 on [0, 1], 0.02 on [1, 3]
+    for order, hamlike, evname in itertools.product((4, 8), (False, True), ("x=0.3", "never")):
+        dim, ip = (6, 3) if hamlike else (2, 1)
+        y0 = np.zeros(dim)
+        y0[0] = 1.0
+        label = f"fixed{order}{'_ham' if hamlike else ''}|non-uniform-grid|event={evname}"
+        try:
+            sol = rk.FixedRK(order=order).integrate(ham if hamlike else rot, y0.copy(), grid, event_fn=(g03 if evname != "never" else never),
+                                                    event_cfg=EventConfig(direction=0, terminal=True), event_options=EventOptions(xtol=1e-10, gtol=1e-12))
+        except Exception as ex:  # noqa
+            ck.notes.append(f"{label} raised {type(ex).__name__}: {str(ex)[:120]} (a rejection is allowed)")
+            continue
+        t_last, y_last = float(sol.times[-1]), np.asarray(sol.states[-1], dtype=float)
+        t_want = math.acos(0.3) if evname != "never" else float(grid[-1])
+        tr = cs.trace(label, {"hit_time": -50, "on_flow": -50}, {"driver": f"fixed{order}{'_ham' if hamlike else ''}", "part": "non-uniform-grid"})
+        ck.count(("event-nonuniform", label), True)
+        cs.obs(tr, "hit_time", abs(t_last - t_want))
+        cs.obs(tr, "on_flow", max(abs(y_last[0] - math.cos(t_last)), abs(y_last[ip] + math.sin(t_last))))
     cs.decide(key_fn=lambda tr, n: f"event|{tr['data']['driver']}|{tr['data']['part']}|{n}")
     cs.selftest()
